@@ -155,6 +155,12 @@ def tail_reuse_family():
     # state left behind by a refused upload the caller survives: forced re-upload refused -> old version stays freed
     H([U(1, [S, T]), U(1, [A, B, C, X], True), U(2, [T]), U(3, [S, Y])], total=192 + 224 + 336 + 300)
     H([U(1, [S, T]), U(2, [A, B, C, X]), U(1, [T, Y], True), ['cleanup'], U(3, [S])], total=192 + 224 + 336 + 300)
+    # round 5: freed WITHOUT cleanup by free_program, then ANOTHER name appends (no force anywhere) on a total that only
+    # suffices because the unreferenced tail is reclaimed before the append (hand mutation: cleanup only `if force`)
+    H([U(1, [X, S]), ['free', 1], U(2, [A])], total=700)
+    H([U(1, [X]), U(2, [S]), ['free', 2], U(3, [A])], total=864)
+    H([U(1, [X]), U(2, [S]), ['free', 2], U(3, [A])], total=863)            # one point short: refused
+    H([U(1, [X]), U(2, [S, T]), ['free', 2], U(3, [T, A])], total=192 + 256 + 208 + 320 + 416)   # T re-used at the tail, S stays a free interior slot, exact fit
     # three rounds of forced re-upload rotating one shared segment through the tail
     H([U(1, [X, S]), U(1, [S, A], True), U(1, [A, B], True), U(1, [B, S], True), U(2, [S, X, A])])
     return out
